@@ -1363,8 +1363,31 @@ func (h *hist) scriptCompletionRetry() {
 	}
 }
 
+// script 8: an agent loses a backend (the administrator registers it for another agent, or deletes it) while requests are
+// pending: from then on its calls are refused, also right after calls of its own that were accepted, and the client gets the
+// response of the agent the backend now belongs to
+func (h *hist) scriptRevokedAgent() {
+	h.setup()
+	ag1 := "agent1@example.com"
+	h.opUStart(us0, "POST", "/rv/1", 500, []string{}, false)
+	k := h.lastK()
+	h.opAList(ag0, "b0", []string{})
+	h.opAFetch(ag0, "b0", k, []string{})
+	h.opAdd("b0", "admin", ag1, us0, []string{"/"}, []string{}) // b0 now belongs to agent1
+	h.opAFetch(ag0, "b0", k, []string{})
+	h.opARespond(ag0, "b0", k, 700, 200, true, []string{})
+	h.opAList(ag0, "b0", []string{})
+	h.opARespond(ag1, "b0", k, 900, 200, true, []string{})
+	h.opUStart(us0, "POST", "/rv/2", 500, []string{}, false)
+	k2 := h.lastK()
+	h.opAFetch(ag1, "b0", k2, []string{})
+	h.opDelete("admin", "b0")
+	h.opARespond(ag1, "b0", k2, 700, 200, true, []string{})
+	h.opAFetch(ag1, "b0", k2, []string{})
+}
+
 var scripts = []func(*hist){(*hist).scriptBothWritesFail, (*hist).scriptCronBetween, (*hist).scriptSizes, (*hist).scriptAccessMatrix, (*hist).scriptRouting, (*hist).scriptGetCache, (*hist).scriptRefresh,
-	(*hist).scriptCompletionRetry}
+	(*hist).scriptCompletionRetry, (*hist).scriptRevokedAgent}
 
 // concurrentRelay: many requests in flight, all answered by agent posts that overlap in time.  Not replayed
 // on the (sequential) model: every client must get exactly the response posted under its own request ID.
